@@ -104,6 +104,8 @@ def gate_lib(gd, be='np'):
     cm = Bk.mods()['c']
     kind = gd['kind']
     q = list(gd['qubits'])
+    if gd.get('labels') and be == 'np':
+        q = [getattr(np, gd['labels'])(x) for x in q]
     if kind == 'rot':
         gl, gk = ref.parse(gd['gen'])
         g = cm.CliffordGate(*q)
